@@ -44,6 +44,8 @@ func execLocal(line string) (impl, oracle string) {
 		return opMdisp(w[1])
 	case "listen":
 		return opListen(w[1])
+	case "serf":
+		return opSerf(w[1])
 	case "fzraw":
 		return opFzRaw(w[1])
 	case "fzrid":
@@ -58,6 +60,8 @@ func execLocal(line string) (impl, oracle string) {
 		return opFzMsg(w[1])
 	case "fzshares":
 		return opFzShares(w[1], w[2], w[3], w[4], w[5])
+	case "fzfetch":
+		return opFzFetch(w[1])
 	case "fzparse":
 		return opFzParse(w[1], w[2])
 	}
